@@ -89,7 +89,10 @@ fn mk(nfat: usize, dsecs: &[u32], pages: [u64; NP]) -> Allocator<SparseFile> {
         difat.push(77); // FAT sector ids of the existing FAT sectors are never dereferenced here
         i += 1;
     }
-    let fat: Vec<u32> = vec![0u32; nsec];
+    // contents of the existing FAT cells are irrelevant for append_fat_sector (only the
+    // length is used): left uninitialised (= arbitrary), with room for the two pushes
+    let mut fat: Vec<u32> = Vec::with_capacity(nsec + 4);
+    unsafe { fat.set_len(nsec); }
     let mut ds: Vec<u32> = Vec::with_capacity(dsecs.len() + 2);
     i = 0;
     while i < dsecs.len() {
